@@ -688,6 +688,33 @@ impl TransformerContext {
         Ok(())
     }
 
+    /// Elements which are not processed one by one (the content of a passed-through
+    /// `<svg>`, of `<defaults>`) are nested all the same: `events` are the content of
+    /// the element at the current depth.
+    pub fn check_content_depth(&self, events: &[InputEvent]) -> Result<()> {
+        let (mut depth, mut deepest) = (0i64, 0i64);
+        for ev in events {
+            match ev.depth_change() {
+                1 => {
+                    depth += 1;
+                    deepest = deepest.max(depth);
+                }
+                -1 => depth -= 1,
+                // (an empty element is one level below what surrounds it)
+                _ if ev.is_empty_element() => deepest = deepest.max(depth + 1),
+                _ => {}
+            }
+        }
+        let deepest = self.current_depth as i64 + deepest;
+        if deepest > self.config.depth_limit as i64 {
+            return Err(SvgdxError::DepthLimitExceeded(
+                (self.config.depth_limit + 1).min(deepest as u32),
+                self.config.depth_limit,
+            ));
+        }
+        Ok(())
+    }
+
     pub fn dec_depth(&mut self) -> Result<()> {
         if self.current_depth > 0 {
             self.current_depth -= 1;
